@@ -579,18 +579,62 @@ func mixSchema(w *W, idx, rep int) map[string]int64 {
 func mixKeys(w *W, idx, rep int) map[string]int64 {
 	c := stressCollection(1000, true)
 	defer c.Close()
+	// block 0 is full of keyed rows, so that the writers' own rows live in block 1: commits that touch
+	// the key column then run in parallel under different block latches
+	c.Query(func(txn *column.Txn) error {
+		for i := 0; i < 16384+100; i++ {
+			txn.InsertKey(fmt.Sprintf("pre-%d", i), func(row column.Row) error { row.SetInt64("m", 0); return nil })
+		}
+		return nil
+	})
 	hook := &stressHook{delayPct: 10, seed: w.Seed + int64(idx)}
 	hook.install(c)
 	defer hook.remove()
-	var ops int64
+	var ops, rekeys int64
+	// two transactions that both queue the delete of the same keyed row before either commits
+	{
+		var both, goOn sync.WaitGroup
+		both.Add(2)
+		goOn.Add(1)
+		var pair []func()
+		for g := 0; g < 2; g++ {
+			pair = append(pair, func() {
+				c.Query(func(txn *column.Txn) error {
+					txn.DeleteKey("pre-16400")
+					both.Done()
+					goOn.Wait()
+					return nil
+				})
+			})
+		}
+		go func() { both.Wait(); goOn.Done() }()
+		parallel(pair...)
+		c.UpsertKey("pre-16400", func(row column.Row) error { row.SetInt64("m", 7); return nil })
+		ops += 3
+	}
 	n := scale(w, 1500, 5000)
 	var fns []func()
 	for wi := 0; wi < 8; wi++ {
 		wi := wi
 		fns = append(fns, func() {
 			r := rngFor(w.Seed, 24, idx, wi)
+			ns := wi
+			if wi == 3 {
+				ns = 1 // writers 1 and 3 work on the same keys: deletes and upserts of one key from two goroutines
+			}
 			for i := 0; i < n; i++ {
-				key := fmt.Sprintf("w%d-%d", wi, r.Intn(40))
+				if wi%2 == 0 {
+					// re-key rows of block 0 that this writer alone works with: pre-N <-> alt-N
+					j := wi*100 + r.Intn(30)
+					from, to := fmt.Sprintf("pre-%d", j), fmt.Sprintf("alt-%d", j)
+					if c.QueryKey(from, func(row column.Row) error { row.SetKey(to); return nil }) != nil {
+						c.QueryKey(to, func(row column.Row) error { row.SetKey(from); return nil })
+					}
+					atomic.AddInt64(&rekeys, 1)
+					atomic.AddInt64(&ops, 1)
+					continue
+				}
+				key := fmt.Sprintf("w%d-%d", ns, r.Intn(40))
 				switch r.Intn(4) {
 				case 0:
 					c.DeleteKey(key)
@@ -604,10 +648,9 @@ func mixKeys(w *W, idx, rep int) map[string]int64 {
 		})
 	}
 	parallel(fns...)
-	return map[string]int64{"key_operations": ops, "commits": atomic.LoadInt64(&hook.commits)}
+	return map[string]int64{"key_operations": ops, "re_keyed_rows_beside_key_writes_in_another_block": rekeys, "commits": atomic.LoadInt64(&hook.commits)}
 }
 
-// enum interning of new strings from several blocks beside readers
 func mixEnum(w *W, idx, rep int) map[string]int64 {
 	c := stressCollection(1000, false)
 	defer c.Close()
